@@ -51,6 +51,25 @@ macro_rules! dispatch {
 }
 pub(crate) use dispatch;
 
+/// capacities instantiated for the random-history workload only (threshold- and
+/// power-of-two-dependent code paths)
+macro_rules! dispatch_r {
+    ($n:expr, $p:ty, $($f:ident)::+, $ctx:expr) => {
+        match $n {
+            31 => $($f)::+::<31, $p>($ctx),
+            32 => $($f)::+::<32, $p>($ctx),
+            33 => $($f)::+::<33, $p>($ctx),
+            64 => $($f)::+::<64, $p>($ctx),
+            127 => $($f)::+::<127, $p>($ctx),
+            128 => $($f)::+::<128, $p>($ctx),
+            255 => $($f)::+::<255, $p>($ctx),
+            256 => $($f)::+::<256, $p>($ctx),
+            257 => $($f)::+::<257, $p>($ctx),
+            n => dispatch!(n, $p, $($f)::+, $ctx),
+        }
+    };
+}
+
 macro_rules! dispatch1 {
     ($n:expr, $($f:ident)::+, $ctx:expr) => {
         match $n {
@@ -64,7 +83,11 @@ macro_rules! dispatch1 {
             7 => $($f)::+::<7>($ctx),
             8 => $($f)::+::<8>($ctx),
             16 => $($f)::+::<16>($ctx),
+            32 => $($f)::+::<32>($ctx),
             61 => $($f)::+::<61>($ctx),
+            255 => $($f)::+::<255>($ctx),
+            256 => $($f)::+::<256>($ctx),
+            257 => $($f)::+::<257>($ctx),
             1000 => $($f)::+::<1000>($ctx),
             n => $ctx.notes.push(format!("capacity {} not instantiated for this workload", n)),
         }
@@ -156,9 +179,9 @@ fn run(args: &Args, ctx: &mut Ctx, ns: &[usize], elem: &str) {
                     #[cfg(not(feature = "heaptok"))]
                     dispatch!(n, tok::Pad32, random::random, &mut *ctx);
                 } else if elem == "nodrop" {
-                    dispatch!(n, (), random::random, &mut *ctx);
+                    dispatch_r!(n, (), random::random, &mut *ctx);
                 } else {
-                    dispatch!(n, MainPad, random::random, &mut *ctx);
+                    dispatch_r!(n, MainPad, random::random, &mut *ctx);
                 }
             }
         }
